@@ -1,6 +1,7 @@
 package kv
 
 import (
+	"bytes"
 	"encoding/base64"
 	"errors"
 	"fmt"
@@ -49,7 +50,26 @@ func decrypt(key *[32]byte, c []byte) ([]byte, error) {
 		// fallback to the old implementation
 		return crypto_secretbox_open_easy(c[24:], c[0:24], key)
 	}
+	if len(m) > 64-crypto_secretbox_zerobytes && !nonceIsFor(c[:encryptNonceLen], m, key) {
+		// The old implementation authenticates exactly like secretbox and is
+		// identical to it for the first 32 bytes, but it restarted the key
+		// stream after them: secretbox.Open accepts its boxes and returns
+		// garbage beyond the first block. The nonce is derived from the
+		// plaintext and the key, so it tells which plaintext was sealed.
+		old, err := crypto_secretbox_open_easy(c[24:], c[0:24], key)
+		if err == nil && nonceIsFor(c[:encryptNonceLen], old, key) {
+			return old, nil
+		}
+	}
 	return m, nil
+}
+
+func nonceIsFor(n []byte, message []byte, key *[32]byte) bool {
+	combined := make([]byte, 0, len(message)+len(key))
+	combined = append(combined, message...)
+	combined = append(combined, key[:]...)
+	want, err := nonce(combined, encryptNonceLen)
+	return err == nil && bytes.Equal(want[:encryptNonceLen], n)
 }
 
 func nonce(message []byte, nonce_len int) ([]byte, error) {
